@@ -188,6 +188,14 @@ pub fn sel_s(p: &Profile) -> BoxedStrategy<Sel> {
             6 => "[a-c]{1,2}".prop_map(|s| B::L(s.into_bytes())),
             1 => Just(B::L(vec![0xff])),
             1 => Just(B::L(vec![0xff, 0xff])),
+            // prefixes whose last byte cannot be incremented / is the smallest, with keys on both sides
+            2 => ("[a-b]{1,2}", prop_oneof![Just(0xffu8), Just(0u8)]).prop_map(|(s, b)| {
+                let mut v = s.into_bytes();
+                v.push(b);
+                B::L(v)
+            }),
+            // any key of the profile's key space (and so every proper prefix relation among keys)
+            2 => key_s(p),
         ].prop_map(Sel::Prefix),
     ]
     .boxed()
@@ -402,7 +410,7 @@ pub fn op_s(p: &Profile) -> BoxedStrategy<Op> {
                 Op::CreateKs { name, cfg }
             }),
             4 => (ks(), any::<bool>()).prop_map(|(ks, keep_handle)| Op::DeleteKs { ks, keep_handle }),
-            2 => (any::<u16>(), k.clone(), prop::option::of(v.clone())).prop_map(|(i, k, v)| Op::StaleWrite { i, k, v }),
+            3 => (any::<u16>(), k.clone(), prop::option::of(v.clone()), any::<bool>()).prop_map(|(i, k, v, batch)| Op::StaleWrite { i, k, v, batch }),
             1 => any::<u16>().prop_map(|i| Op::StaleDrop { i }),
         ]
         .boxed(),
@@ -412,8 +420,88 @@ pub fn op_s(p: &Profile) -> BoxedStrategy<Op> {
     Union::new_weighted(alts).boxed()
 }
 
+/// Short operation idioms whose parts must refer to each other (same transaction, same keyspace,
+/// the iterator just opened, the handle just made stale). Generated as one chunk and flattened into
+/// the program, so the parts shrink like any other operation.
+fn idiom_s(p: &Profile) -> Option<BoxedStrategy<Vec<Op>>> {
+    let w = &p.w;
+    let mut alts: Vec<(u32, BoxedStrategy<Vec<Op>>)> = vec![];
+    let ks = || any::<u16>();
+    if w.tx > 0 && w.iter > 0 {
+        // iterator over a write transaction's view, then the same transaction writes into the same
+        // keyspace, then the iterator is advanced
+        alts.push((
+            2,
+            (
+                (any::<bool>(), ks(), sel_s(p), txw_s(p)),
+                (prop::option::of((any::<bool>(), 1u8..3)), txw_s(p), prop::option::of(txw_s(p)), any::<bool>(), 1u8..5),
+            )
+                .prop_map(|((begin, ks, sel, w0), (pre, w1, w2, back, n))| {
+                    let t = 65535u16;
+                    let mut v = vec![];
+                    if begin {
+                        v.push(Op::TxBegin);
+                    }
+                    v.push(Op::TxWrite { t, ks, w: w0 });
+                    v.push(Op::IterOpen { src: IterSrc::Tx(t), ks, sel });
+                    if let Some((back, n)) = pre {
+                        v.push(Op::IterStep { j: 65535, back, n });
+                    }
+                    v.push(Op::TxWrite { t, ks, w: w1 });
+                    if let Some(w2) = w2 {
+                        v.push(Op::TxWrite { t, ks, w: w2 });
+                    }
+                    v.push(Op::IterStep { j: 65535, back, n });
+                    v.push(Op::IterStep { j: 65535, back: !back, n: 4 });
+                    v
+                })
+                .boxed(),
+        ));
+    }
+    if w.ks_admin > 0 {
+        // keyspace deleted while a handle stays, a keyspace created (same name in a quarter of the
+        // cases), a batch / transaction through the stale handle, then a look at the live keyspaces
+        let nomp = p.no_manual_persist;
+        alts.push((
+            1,
+            (ks(), 0u8..4, kscfg_s(), key_s(p), prop::option::weighted(0.8, val_s(p)), any::<bool>(), any::<bool>())
+                .prop_map(move |(ks, name, mut cfg, k, v, batch, reopen)| {
+                    if nomp {
+                        cfg.manual_persist = false;
+                    }
+                    let mut ops = vec![
+                        Op::DeleteKs { ks, keep_handle: true },
+                        Op::CreateKs { name, cfg },
+                        Op::StaleWrite { i: 65535, k, v, batch },
+                        Op::Audit,
+                    ];
+                    if reopen {
+                        ops.push(Op::Reopen { alt: 0 });
+                    }
+                    ops
+                })
+                .boxed(),
+        ));
+    }
+    if alts.is_empty() {
+        None
+    } else {
+        Some(Union::new_weighted(alts).boxed())
+    }
+}
+
 pub fn case_s(p: &Profile) -> BoxedStrategy<Case> {
-    (cfg_s(p), vec(op_s(p), 0..=p.max_ops))
-        .prop_map(|(cfg, ops)| Case { cfg, ops })
+    let single = op_s(p).prop_map(|o| vec![o]).boxed();
+    let chunk = match idiom_s(p) {
+        Some(i) => prop_oneof![24 => single, 1 => i].boxed(),
+        None => single,
+    };
+    let max = p.max_ops;
+    (cfg_s(p), vec(chunk, 0..=p.max_ops))
+        .prop_map(move |(cfg, chunks)| {
+            let mut ops: Vec<Op> = chunks.into_iter().flatten().collect();
+            ops.truncate(max + 8);
+            Case { cfg, ops }
+        })
         .boxed()
 }
